@@ -40,6 +40,7 @@ pub fn meta(prop: &str) -> Option<Meta> {
         "C20" => m("exploration", "bookkeeping snapshot (hook) recomputed from the model's live tree after every step of fork/discard/shared-transaction histories with upgrades; distinct = fingerprint of (tree shape, threshold, network, forks, cached tx outs)", 35.0, 600.0),
         "C06" => m("exploration", "page chains (page sizes 1..7 through the hook; 1000 in the thorough tier) started on forked histories with 0-2 events between consecutive page requests drawn from {best chain grows, competing fork grows, ancestors stabilise, the chain of the first tip is discarded, upgrade}, plus forged and random page blobs; distinct = fingerprint of (event sequence, pages, elements, tree shape)", 35.0, 600.0),
         "C08" => m("fault_enumeration", "scripted histories replayed under per-round instruction budgets (random, pause-everywhere, and for a designed small block every subset of pause positions) against an unsliced twin; full user-visible snapshot compared at every pause point with the one taken before the ingestion began; distinct = distinct (history, pause set) pairs", 45.0, 900.0),
+        "C13" => m("fault_enumeration", "the harness is the scheduler at the single await point (hook): random schedules of heartbeats / replies (complete 0-3 blocks, partial with 0,1,2,3,17,255 follow-ups at arbitrary split points, rejects) / queries / upgrades over a universe of valid regtest blocks served by an honest adapter model, then a reject-free drain with a step bound; plus all op sequences up to a length bound over a 6-letter alphabet; distinct = distinct op sequences", 45.0, 900.0),
         "C07" => m("exploration", "all (start,end) pairs up to tip+2 on every state of histories (sampled when tip > 40), also at pause points of sliced ingestions and after upgrades; distinct = (class, start, last, tip, stable height, paused)", 35.0, 600.0),
         _ => None,
     }
@@ -58,6 +59,13 @@ pub fn run(ctx: &mut Ctx) {
     match prop.as_str() {
         "C01" | "C02" | "C03" | "C04" | "C05" | "C07" | "C15" | "C20" => lane_history(ctx),
         "C06" => crate::c06::lane_pages(ctx),
+        "C13" => {
+            let b = ctx.budget_s;
+            ctx.budget_s = b * 0.6;
+            crate::sched::lane_random(ctx);
+            ctx.budget_s = b;
+            crate::sched::lane_exhaustive(ctx);
+        }
         "C08" => {
             let b = ctx.budget_s;
             ctx.budget_s = b * 0.6;
